@@ -38,9 +38,10 @@ package snapshot
 // models with a crash point are the same, so position k is the same place in both worlds.
 // A partial removal is produced natively by the hook itself (it removes the chosen entries with the
 // real calls and dies). A partial write is produced natively by letting the real call complete and
-// dying at the very next crash point (or at the end of the run) after truncating the file to the
-// chosen prefix: nothing that mutates the disk lies between the two, so what is on disk is what a
-// death inside the write leaves.
+// dying at the very next hooked call (or at the end of the run) after truncating the file to the
+// chosen prefix: every call of the code under test that changes the disk is hooked (db.Open, which
+// creates the -wal and -shm files of a database, only for this purpose), so nothing that mutates
+// the disk lies between the two, and what is on disk is what a death inside the write leaves.
 
 import (
 	"bytes"
@@ -80,6 +81,7 @@ const (
 	vOpSidecar     = "github.com/rqlite/rqlite/v10/snapshot/sidecar.WriteFile"
 	vOpRemoveDirSy = "github.com/rqlite/rqlite/v10/internal/fsutil.RemoveDirSync"
 	vOpIoCopy      = "io.Copy"
+	vOpDBOpen      = "github.com/rqlite/rqlite/v10/db.Open" // native replay: hooked, not a crash point
 )
 
 var vCr struct {
@@ -105,11 +107,13 @@ var vCr struct {
 // vPartialLog: the number of partial states there were at each crash inside a call of this path
 // (read by the native sweep).
 var vPartialLog []int
+var vPartialPick []int // and the state that was picked
 
 // vPartialChoice picks one of the n partial states of the call the process dies in.
 func vPartialChoice(n int) int {
 	c := verifChoice(verifName("partial", len(vPartialLog)), n)
 	vPartialLog = append(vPartialLog, n)
+	vPartialPick = append(vPartialPick, c)
 	return c
 }
 
@@ -252,6 +256,10 @@ func vNativeHook(op string, arg any) {
 		if f, ok := arg.(*os.File); ok {
 			vWritePoints(op, f.Name(), true)
 		}
+	case vOpDBOpen:
+		// opening a database in WAL mode creates its -wal and -shm files: a write in flight is
+		// cut before that happens (the call is not a crash point of its own)
+		vFinishPending()
 	default:
 		vPoint(op, p)
 	}
@@ -1005,7 +1013,7 @@ func vMust(err error) {
 // temporary directory natively. Everything below it is created with the ordinary os calls
 // (which are the models above in the symbolic run).
 func vNewRoot(tag string) string {
-	vPartialLog = nil
+	vPartialLog, vPartialPick = nil, nil
 	vPlans = nil
 	if verifSymbolic() {
 		root := "/" + tag
